@@ -19,7 +19,7 @@ CHECKS = {
     "C02": dict(
         technique="deterministic simulation: two endpoints over a seeded hostile datagram network (loss, duplication, reordering, corruption, truncation, extension, key/nonce desynchronisation, bit-flip storms) with a ledger oracle",
         category="exploration",
-        text="Seeded search over network fault schedules: sender and receiver sessions of every AEAD family (one-shot, incremental incl. multi-packet reinit with NULL key/nonce, masked, SIV, ISAP x three parameter sets; 14 backend x share configurations so that every masked backend family meets data shares 1..4) exchange packets through a simulated packet pool that drops, duplicates, reorders, corrupts (single/multi bit in ciphertext, tag, AD), truncates to any length, extends, and desynchronises keys and nonces; every delivery is judged against the ledger of what the sender really encrypted (accept iff identical tuple; plaintext and length on accept; zeroed buffer on one-shot reject). Bit-flip storms re-deliver one packet once per single-bit flip of ciphertext||tag, AD, nonce or key through fresh receiver objects (48 sampled bits in quick, every bit in thorough); for the C++ classes the storm receivers are keyed through the key constructor or set_key and judged by the same ledger. Sampling, not proof.",
+        text="Seeded search over network fault schedules: sender and receiver sessions of every AEAD family (one-shot, incremental incl. multi-packet reinit with NULL key/nonce, masked, SIV, ISAP x three parameter sets; 14 backend x share configurations so that every masked backend family meets data shares 1..4, plus the acquire/release-checking configuration, where an abort of the checker inside a legal packet sequence is a C02 verdict) exchange packets through a simulated packet pool that drops, duplicates, reorders, corrupts (single/multi bit in ciphertext, tag, AD), truncates to any length, extends, and desynchronises keys and nonces; every delivery is judged against the ledger of what the sender really encrypted (accept iff identical tuple; plaintext and length on accept; zeroed buffer on one-shot reject). Bit-flip storms re-deliver one packet once per single-bit flip of ciphertext||tag, AD, nonce or key through fresh receiver objects (48 sampled bits in quick, every bit in thorough); for the C++ classes the storm receivers are keyed through the key constructor or set_key and judged by the same ledger. Sampling, not proof.",
         note="Thorough adds one packet over 2^32+11 bytes of associated data per one-shot/SIV/ISAP/masked family (size_t lengths). Trusted: ledger model in the harness; 2^-128 accidental forgeries ignored; what a C++ session object accepts after a nonce history is judged under C14 (its nonce is private), its keying paths also under C17.",
         design="§3 W1, §4 C02"),
     "C14": dict(
@@ -43,13 +43,13 @@ CHECKS = {
     "C17": dict(
         technique="deterministic simulation: seeded life-cycle histories of the C++ cipher/hash/xof objects (every construction and keying path, every overload) mirrored call by call through the C API; the harness translation unit is the compile obligation",
         category="exploration",
-        text="(1) Programs: asim/worlds/cppobj.cpp instantiates every public member and overload of the 12 cipher classes, hash/hasha, xof/xofa, xof[a]_with_output_length<1,17,32,64> and the byte-array helpers; if it stops compiling with an error located in a /repo header the check reports a C17 violation whose replay file holds the compiler log. (2) Histories: up to 3 cipher objects and 3 hash/xof objects live at once and go through default/key/NULL-key/saved-key/zero-length construction, set_key (full, zero length with NULL and non-NULL pointer, saved ISAP key, undocumented length -> false), set_nonce(0..24)/set_counter, encrypt/decrypt through all four overloads incl. tampered and too-short inputs, save_key, randomize_key, clear, copy construction, assignment (incl. self), reset, pad, destroy; every output must equal the C function for the model (key, nonce) or the mirrored C state, failed byte_array decrypts must leave an empty array, a crash counts as a violation.",
+        text="(1) Programs: asim/worlds/cppobj.cpp instantiates every public member and overload of the 12 cipher classes, hash/hasha, xof/xofa, xof[a]_with_output_length<1,17,32,64> and the byte-array helpers; if it stops compiling with an error located in a /repo header the check reports a C17 violation whose replay file holds the compiler log. (2) Histories: up to 3 cipher objects and 3 hash/xof objects live at once and go through default/key/NULL-key/saved-key/zero-length construction, set_key (full, zero length with NULL and non-NULL pointer, saved ISAP key, undocumented length -> false), set_nonce(0..24)/set_counter, encrypt/decrypt through all four overloads incl. tampered and too-short inputs, save_key, randomize_key, clear, copy construction, assignment (incl. self), reset, pad, destroy; every output must equal the C function for the model (key, nonce) or the mirrored C state, failed byte_array decrypts must leave no byte derived from the rejected packet, a crash counts as a violation. The same translation unit is compiled and run against the ASCON_NO_STL configuration (the library's own reference-counted byte_array); half of the byte_array calls reuse one long-lived output array while a by-value copy of the previous result is kept, and the copy must still hold what the C function returned.",
         note="Trusted: the C API of the same library as reference (C01..C05 not claimed), for the byte-array helper functions too; g++ as the compiler that decides 'compiles when used'.",
         design="§3 W8, §4 C17"),
     "C19": dict(
         technique="deterministic simulation: the tools' real main() in forked simulated processes over an in-memory file system with scripted syscall faults (EINTR/EAGAIN/short I/O/EIO/ENOSPC/open failure), crash points, tampering and entropy failure; thorough adds systematic k-th-call and every-byte sweeps",
         category="exploration",
-        text="Seeded scenarios of asconcrypt (-e/-d/auto-detect/-o/-p/-k/-g/stdin-stdout, several inputs per invocation, an older longer file at the output name) and asconsum (hash and -c check mode with spoiled, duplicated and missing entries) run as simulated processes against a simulated OS; faults and crash points are attached to a specific call of a specific invocation. Oracles: round-trip identity; exit != 0 and no output file after wrong password, any bit flip, truncation (= writer crashed after any prefix), extension, any hard I/O fault or entropy failure; transient faults end in correct success or loud failure; asconsum output equals the library digest lines; check mode says OK exactly for unmodified files. Thorough adds fault_enumeration-style sweeps (k-th read/write fails for every k; every truncation length; one bit in every byte) on small files; the claimed level stays exploration because scenarios are sampled.",
+        text="Seeded scenarios of asconcrypt (-e/-d/auto-detect/-o/-p/-k/-g/stdin-stdout, several inputs per invocation, an older longer file at the output name) and asconsum (hash and -c check mode with spoiled, duplicated and missing entries) run as simulated processes against a simulated OS; faults and crash points are attached to a specific call of a specific invocation. Oracles: round-trip identity; exit != 0 and no output file after wrong password (an unrelated one or one that differs from the right one only in its last character / by one appended character, at every length up to 1026), any bit flip, truncation (= writer crashed after any prefix), extension, any hard I/O fault or entropy failure; transient faults end in correct success or loud failure; asconsum output equals the library digest lines; check mode says OK exactly for unmodified files. Thorough adds fault_enumeration-style sweeps (k-th read/write fails for every k; every truncation length; one bit in every byte) on small files; the claimed level stays exploration because scenarios are sampled.",
         note="Trusted: the simulated OS (simos.c); whether a left-over file is a valid container is decided by the tool's own fault-free decrypt of it (no container format or PBKDF2 parameter is hard-coded in the oracle); PBKDF2 rounds reduced by a wrapper in most runs; close() errors, hard read errors in check mode, the exit status after a malformed list line, whether an empty or >= 1000-character password is accepted, and the layout of digest lines and key files are not judged (not in the statement).",
         design="§3 W5, §4 C19"),
     "C20": dict(
@@ -73,25 +73,25 @@ CHECKS = {
     "C13": dict(
         technique="deterministic simulation with twin-secret executions: every plan runs twice in one process with different keys, messages, fed entropy and entropy tape; object bytes after free/clear()/destructor must be identical; release (-O3) build",
         category="exploration",
-        text="The histories of worlds stream, channel, prng, keystore and cppobj (every object type named in the property, at arbitrary points of its life incl. mid-stream free, re-init, copies, failed decrypts) are executed twice with the same plan and schedule but different secrets; after every free, clear() or destructor the raw bytes of the object are compared between the two executions. C++ objects are placement-constructed in harness-owned storage so their bytes stay readable. Built with the exact release flags (-O3) of the shipped library, on all five backends at the default shares plus four (quick) or 21 (thorough) reduced/enlarged share configurations, because object layouts depend on them.",
-        note="Trusted: the twin construction (keys, messages, nonces, AD, fed entropy and the entropy tape differ between the twins; only dependence on them is flagged, constant residue is allowed; fields that are a function of the plan alone - positions, counters - are equal in both twins and cannot be seen); stack residue is out of scope (the statement is about the bytes of the object).",
+        text="The histories of worlds stream, channel, prng, keystore and cppobj (every object type named in the property, at arbitrary points of its life incl. mid-stream free, re-init, copies, failed decrypts) are executed twice with the same plan and schedule but different secrets; after every free, clear() or destructor the raw bytes of the object are compared between the two executions. History independence is judged separately: the freed object's bytes must equal those left by init+free alone (worlds stream and prng: same memory / a copy re-initialised with the same parameters on a private entropy tape; world cppobj: a never-used object of the same class in identically filled memory), so a length, position, phase or counter that survives the wipe is reported (residue_depends_on_history). C++ objects are placement-constructed in harness-owned storage so their bytes stay readable. Built with the exact release flags (-O3) of the shipped library, on all five backends at the default shares plus four (quick) or 21 (thorough) reduced/enlarged share configurations, because object layouts depend on them.",
+        note="Trusted: the twin construction (keys, messages, nonces, AD, fed entropy and the entropy tape differ between the twins; only dependence on them is flagged, constant residue is allowed; fields that are a function of the plan alone - positions, counters - are equal in both twins and are judged by the init+free comparison instead, which exists for the C state objects of world stream, the PRNG and the C++ cipher classes, not for ISAP keys, masked keys and the C++ hash/xof wrappers; clear() of the masked C++ classes is exempt from it); stack residue is out of scope (the statement is about the bytes of the object).",
         design="§4 C13"),
     "C10": dict(
         technique="deterministic simulation: masked word/state/key/AEAD operation histories with the random source replaced at link time by simulator-controlled tapes (zero, ones, constant, periodic, counter, random, adversarial), over share-count x backend configurations",
         category="exploration",
-        text="The five TRNG-mixer functions are replaced by a tape reader so that every 32/64-bit value the masked code draws is chosen by the simulator (this reaches the x86-64 assembly word backend too). Seeded histories over pools of masked words, states and keys (load/load_partial/load_32/store/store_partial/zero/xor/replace/randomize/from_xN/pad/separator; xN_permute for every starting round with preserved or fresh randomness; copy_from/to_x1 and share-count conversions; key init/extract/randomize; the three masked AEADs incl. tampered inputs) are compared, through public observers only, with the unmasked computation by the library itself. Re-randomisation must preserve the value and (random tape, distinct non-zero words, or no word drawn at all) change every share; masked AEAD histories re-randomise their key before and between uses. Masked keys are also re-randomised with the library's own random source inside the network world (world channel on three configurations; they must still extract to the key and the masked AEAD must still agree with the ledger). Quick: 15 configurations; thorough: all 16 valid share combinations on asm, c64 and c32 plus direct-xor and generic.",
+        text="The five TRNG-mixer functions are replaced by a tape reader so that every 32/64-bit value the masked code draws is chosen by the simulator (this reaches the x86-64 assembly word backend too). Seeded histories over pools of masked words, states and keys (load/load_partial/load_32/store/store_partial/zero/xor/replace/randomize/from_xN/pad/separator; xN_permute for every starting round with preserved or fresh randomness; copy_from/to_x1 and share-count conversions; key init/extract/randomize; the three masked AEADs incl. tampered inputs) are compared, through public observers only, with the unmasked computation by the library itself. Re-randomisation must preserve the value and (random tape, distinct non-zero words, or no word drawn at all) change every share; masked AEAD histories re-randomise their key before and between uses. Masked keys are also re-randomised with the library's own random source inside the network world (world channel on three configurations; they must still extract to the key and the masked AEAD must still agree with the ledger). An operation of the masked world that dies (inputs end at a PROT_NONE page in a quarter of the runs) has computed no value and is a C10 verdict. Quick: 15 configurations; thorough: all 16 valid share combinations on asm, c64 and c32 plus direct-xor and generic.",
         note="Trusted: the library's unmasked permutation/AEAD as reference; tape reader; value semantics of load_partial/replace/pad as documented in ascon-masked-word.h.",
         design="§3 W7, §4 C10"),
     "C06": dict(
         technique="deterministic simulation: histories on ISAP pre-computed keys (packets, save, restart from the saved image into clean or dirty memory, free) with KAT-validated reference models of ISAP v2.0 and the SIV construction as oracle",
         category="exploration",
-        text="History part (the simulation target): up to 3 interleaved pre-computed ISAP keys go through seeded sequences of encrypt/decrypt packets (incl. tampered), save to a byte image (the only durable state), restart (object discarded, reloaded from the image, possibly elsewhere and into dirty memory) and free; the raw key object must be bit-identical before and after every encrypt/decrypt/save, save(load(s)) == s, and every later packet must equal what the original key produces. Specification part: every ISAP and SIV output is compared with reference models written over the harness' own reference permutation (validated against embedded known answers) and self-tested against the repository's KAT files at start-up - no library code is part of the oracle; equal SIV inputs give equal outputs. The specification part is model-based input sampling and is labelled so.",
+        text="History part (the simulation target): up to 3 interleaved pre-computed ISAP keys go through seeded sequences of encrypt/decrypt packets (incl. tampered), save to a byte image (the only durable state), restart (object discarded, reloaded from the image, possibly elsewhere and into dirty memory) and free; the raw key object must be bit-identical before and after every encrypt/decrypt/save, save(load(s)) == s, and every later packet must equal what the original key produces; the same histories also run in the acquire/release-checking configuration (an abort of the checker after a forged packet means the next packet on that key has no output). Specification part: every ISAP and SIV output is compared with reference models written over the harness' own reference permutation (validated against embedded known answers) and self-tested against the repository's KAT files at start-up - no library code is part of the oracle; equal SIV inputs give equal outputs. The specification part is model-based input sampling and is labelled so.",
         note="Trusted: the two reference models and the reference permutation (a model that fails its own known answers => exit 2, never a VIOLATION); the repository's KAT files.",
         design="§3 W8, §4 C06"),
     "C07": dict(
         technique="deterministic simulation: seeded interleaved object histories (chunking, copy, re-init, free, dirty-memory reuse) checked against the library's own single-call form",
         category="exploration",
-        text="Seeded search over histories: up to 6 live incremental objects (hash, xof, prf, hmac, kmac, kdf, hkdf, incremental AEAD; both permutation families) are driven through randomly chunked absorb/squeeze/encrypt/decrypt calls (declared lengths up to 2^29 for the length-prefixed modes, HKDF up to and across its 8160-byte limit), copies, re-inits, several packets per incremental AEAD session, frees and re-use of dirty memory, interleaved by a seeded scheduler; after every output the transcript must equal the library's one-shot (or fresh single-call) result. Sampling, not proof; the right level because the quantifier is over unbounded call histories.",
+        text="Seeded search over histories: up to 6 live incremental objects (hash, xof, prf, hmac, kmac, kdf, hkdf, incremental AEAD; both permutation families) are driven through randomly chunked absorb/squeeze/encrypt/decrypt calls (declared lengths up to 2^29 for the length-prefixed modes, HKDF up to and across its 8160-byte limit), copies, re-inits (incremental AEAD: also with the object's own nonce field as the nonce argument, a NULL nonce or a NULL key), several packets per incremental AEAD session, frees and re-use of dirty memory, interleaved by a seeded scheduler; after every output the transcript must equal the library's one-shot (or fresh single-call) result. Sampling, not proof; the right level because the quantifier is over unbounded call histories.",
         note="Trusted: the library's one-shot functions as the reference (what they compute is C03/C04/C05, not claimed); gcc; the harness' transcript model. XOF/XOFA sessions also go back from squeezing to absorbing (canonical form: one absorb and one squeeze call per round). Calls longer than a few KiB exist in the thorough tier only (batch `huge`: one absorb/update call of 2^32+k bytes behind a partly filled block, nine families).",
         design="§3 W2, §4 C07"),
 }
